@@ -263,7 +263,7 @@ pub fn run(ctx: &mut Ctx) {
     }
     // long roots
     for id in ALL_CODECS {
-        let lens = gen::long_lens(ctx.thorough());
+        let lens = gen::long_lens(ctx.thorough(), ctx.seed);
         ctx.forall_lens(
             &format!("paths_long/{}", id.name()),
             &lens,
